@@ -149,6 +149,14 @@ pub fn so3_quats(thorough: bool) -> Vec<[f64; 4]> {
         quat_mul(&quat_axis_angle(y, 37.0), &quat_axis_angle(x, 111.0)),
         unit([0.5, -0.5, 0.5, 0.5]),
         unit([1.0, 2.0, 3.0, 4.0]),
+        // legal unit quaternions whose self dot product rounds to 1 + ulp (1/sqrt2 squared is
+        // 0.5000000000000001): |dot(q, -q)| then exceeds 1 before any clamping
+        [std::f64::consts::FRAC_1_SQRT_2, 0.0, 0.0, std::f64::consts::FRAC_1_SQRT_2],
+        neg([std::f64::consts::FRAC_1_SQRT_2, 0.0, 0.0, std::f64::consts::FRAC_1_SQRT_2]),
+        [0.0, std::f64::consts::FRAC_1_SQRT_2, 0.0, -std::f64::consts::FRAC_1_SQRT_2],
+        [0.0, 0.0, std::f64::consts::FRAC_1_SQRT_2, std::f64::consts::FRAC_1_SQRT_2],
+        [std::f64::consts::FRAC_1_SQRT_2, std::f64::consts::FRAC_1_SQRT_2, 0.0, 0.0],
+        neg([std::f64::consts::FRAC_1_SQRT_2, std::f64::consts::FRAC_1_SQRT_2, 0.0, 0.0]),
     ];
     if thorough {
         for a in [1.0, 10.0, 30.0, 60.0, 100.0, 150.0, 179.0, 179.999999] {
